@@ -305,7 +305,11 @@ fn cli_password_edges(ctx: &Ctx) {
             wd.write("m.txt", b"message");
             let tome = refspec::encode_key_file(&peer.sk, &peer.pk, &me.pk, &rng.arr32(), &rng.arr32(), b"for me", &[6]).unwrap();
             wd.write("tome.ktl", &tome);
-            for wrong in ["wrong", "", " ", "x"] {
+            let near_a = format!("{}\n", w);
+            let near_b = format!("{} ", w);
+            let near_c = w.trim_end().to_string();
+            let near_d = w.to_uppercase();
+            for wrong in ["wrong", "", " ", "x", near_a.as_str(), near_b.as_str(), near_c.as_str(), near_d.as_str()] {
                 if wrong == w || refspec::hmac_norm(wrong.as_bytes()) == refspec::hmac_norm(w.as_bytes()) {
                     continue;
                 }
